@@ -22,6 +22,10 @@ def _ids(rnd, n, allow_bad=False):
     pool = rnd.sample(range(0, 4 * n + 10), rnd.randint(1, max(1, n)))
     if rnd.random() < 0.6 and 0 not in pool:
         pool[0] = 0
+    if rnd.random() < 0.2:
+        # survey-style identifiers (7 digits) and ids built as 100 * id + counter; members of a group are NOT adjacent
+        base = rnd.choice([999_990, 1_000_000, 1_234_500, 3_000_017])
+        pool = [base + (100 * k if rnd.random() < 0.5 else k) for k in pool]
     ids = [rnd.choice(pool) for _ in range(n)]
     if allow_bad and rnd.random() < 0.08 and n:
         ids[rnd.randrange(n)] = -rnd.randint(1, 3)
